@@ -45,14 +45,165 @@ Record quantified (e : entity) : Prop := mkQd {
               | None => true
               end = true }.
 
+(* ---- the package scopes are duplicate-free: DERIVED from the user's names being distinct ------------------- *)
+Lemma status_values_names_n : forall p l n0, map fst (status_values_n p l n0) = sp_enum_values_n p l n0.
+Proof.
+  intros p [|s r] n0; [reflexivity|]. cbn [status_values_n sp_enum_values_n].
+  change (sp_explicit_zero p s) with (is_explicit_zero p s).
+  destruct (is_explicit_zero p s && (n0 =? 0)); cbn [map fst]; rewrite number_from_names; reflexivity.
+Qed.
+Lemma status_values_names : forall p l, map fst (status_values p l) = sp_enum_values p l.
+Proof. intros p l. apply status_values_names_n. Qed.
+
+
+Lemma NoDup_map_app_head : forall (c : bytes) (l : list bytes), NoDup l -> NoDup (map (app c) l).
+Proof.
+  intros c l H. induction H as [|x l Hn _ IH]; cbn; constructor; [|exact IH].
+  intros Hin. apply in_map_iff in Hin. destruct Hin as [y [Hy Hin]]. apply app_inv_head in Hy. now subst.
+Qed.
+
+Lemma NoDup_of_map : forall {A B} (f : A -> B) l, NoDup (map f l) -> NoDup l.
+Proof.
+  intros A B f l. induction l as [|x l IH]; intros H; [constructor|]. cbn in H. inversion H as [|? ? Hn Hd]; subst.
+  constructor; [|now apply IH]. intros Hin. apply Hn. now apply in_map.
+Qed.
+
+Lemma has_prefix_split : forall p x, has_prefix p x = true -> exists t, x = p ++ t.
+Proof.
+  induction p as [|c p IH]; intros x H; [now exists x|]. destruct x as [|y x]; [discriminate|].
+  cbn in H. apply andb_true_iff in H. destruct H as [Hc Hp]. apply N.eqb_eq in Hc. subst y.
+  destruct (IH x Hp) as [t ->]. now exists t.
+Qed.
+
+Lemma alnum_no_underscore : forall x, forallb alnum x = true -> ~ In 95 x.
+Proof. intros x H Hin. rewrite forallb_forall in H. specialize (H 95 Hin). discriminate. Qed.
+
+(* every value of the status enum carries the prefix <SCREAMING>_STATUS_ *)
+Lemma sp_value_name_prefix : forall p s, has_prefix p (sp_value_name p s) = true.
+Proof. intros p s. unfold sp_value_name. destruct (has_prefix p s) eqn:E; [exact E|apply has_prefix_app]. Qed.
+Lemma enum_values_prefixed : forall p l n0 v, In v (sp_enum_values_n p l n0) -> has_prefix p v = true.
+Proof.
+  intros p [|s r] n0 v H; cbn [sp_enum_values_n] in H.
+  - destruct H as [<-|[]]. apply has_prefix_app.
+  - destruct (sp_explicit_zero p s && (n0 =? 0)).
+    + apply in_map_iff in H. destruct H as [o [<- _]]. apply sp_value_name_prefix.
+    + destruct H as [<-|H]; [apply has_prefix_app|]. apply in_map_iff in H. destruct H as [o [<- _]]. apply sp_value_name_prefix.
+Qed.
+
+(* the status values are pairwise distinct because their protobuf canonical names are (decl_enums_ok) *)
+Lemma status_values_nodup : forall e, decl_enums_ok e = true ->
+  NoDup (sp_enum_values_n (sp_status_prefix e) (e_status e) (sp_first_number e)).
+Proof.
+  intros e H. unfold decl_enums_ok in H. apply andb_true_iff in H. destruct H as [H _].
+  unfold client_accepts in H. cbn [forallb] in H. apply andb_true_iff in H. destruct H as [H _].
+  unfold status_enum, enum_accepts in H. apply nodup_bytes_NoDup in H.
+  rewrite <- (map_map fst (fun n => enum_value_name (trim_enum_prefix n (enum_prefix_of (component_name e (bs "Status")))))) in H.
+  apply NoDup_of_map in H. unfold entity_status_values in H. rewrite status_values_names_n in H. exact H.
+Qed.
+
+Lemma NoDup_insert_mid : forall {A} (a b c : list A),
+  NoDup (a ++ c) -> NoDup b -> (forall x, In x (a ++ c) -> ~ In x b) -> NoDup (a ++ b ++ c).
+Proof.
+  induction a as [|x a IH]; intros b c Hac Hb Hd; cbn [app] in *.
+  - apply NoDup_app_intro; [exact Hb|exact Hac|]. intros y Hy Hin. exact (Hd y Hin Hy).
+  - inversion Hac as [|? ? Hn Hac']; subst. constructor.
+    + intros Hin. apply in_app_or in Hin. destruct Hin as [Hin|Hin]; [apply Hn; apply in_or_app; now left|].
+      apply in_app_or in Hin. destruct Hin as [Hin|Hin]; [exact (Hd x (or_introl eq_refl) Hin)|].
+      apply Hn. apply in_or_app. now right.
+    + apply IH; [exact Hac'|exact Hb|]. intros y Hy. apply Hd. now right.
+Qed.
+
+Lemma generated_main_nodup : forall e, decl_enums_ok e = true -> NoDup (sp_main_generated e).
+Proof.
+  intros e He. unfold sp_main_generated.
+  set (vals := sp_enum_values_n (sp_status_prefix e) (e_status e) (sp_first_number e)).
+  assert (Hsix : NoDup (map (app (sp_camel e)) [bs "Keys"; bs "Data"; bs "Status"; bs "State"; bs "EventType"; bs "Event"])).
+  { apply NoDup_map_app_head. apply nodup_bytes_NoDup. vm_compute. reflexivity. }
+  assert (Hv : NoDup vals) by (now apply status_values_nodup).
+  assert (Hdis : forall x, In x (map (app (sp_camel e)) [bs "Keys"; bs "Data"; bs "Status"; bs "State"; bs "EventType"; bs "Event"]) -> ~ In x vals).
+  { intros x Hx Hin. pose proof (enum_values_prefixed _ _ _ _ Hin) as Hp. destruct (has_prefix_split _ _ Hp) as [t ->].
+    apply in_map_iff in Hx. destruct Hx as [sfx [Hx Hs]].
+    assert (Ha : forallb alnum (sp_camel e ++ sfx) = true).
+    { rewrite forallb_app. unfold sp_camel. rewrite to_camel_alnum. cbn [andb].
+      destruct Hs as [<-|[<-|[<-|[<-|[<-|[<-|[]]]]]]]; reflexivity. }
+    rewrite Hx in Ha. apply (alnum_no_underscore _ Ha). apply in_or_app. left.
+    unfold sp_status_prefix. apply in_or_app. right. cbn. auto. }
+  cbn [map] in Hsix, Hdis. unfold sp_name.
+  (* [K;D;S] ++ vals ++ [St;ET;Ev]: the values inserted into the six names *)
+  apply (NoDup_insert_mid [sp_camel e ++ bs "Keys"; sp_camel e ++ bs "Data"; sp_camel e ++ bs "Status"] vals
+                          [sp_camel e ++ bs "State"; sp_camel e ++ bs "EventType"; sp_camel e ++ bs "Event"]);
+    [exact Hsix|exact Hv|exact Hdis].
+Qed.
+
+Lemma generated_service_nodup : forall e, NoDup (sp_service_generated e).
+Proof.
+  intros e. unfold sp_service_generated.
+  change (NoDup (map (app (sp_query_prefix e)) [bs "GetRequest"; bs "GetResponse"; bs "ListRequest"; bs "ListResponse";
+                                                bs "EventsRequest"; bs "EventsResponse"; bs "QueryService"])).
+  apply NoDup_map_app_head. apply nodup_bytes_NoDup. vm_compute. reflexivity.
+Qed.
+
+Lemma last_app_nonempty : forall (a b : bytes) d, b <> [] -> last (a ++ b) d = last b d.
+Proof.
+  induction a as [|x a IH]; intros b d Hb; [reflexivity|]. cbn [app]. rewrite <- (IH b d Hb).
+  destruct (a ++ b) eqn:E; [|reflexivity]. apply app_eq_nil in E. destruct E as [_ E]. contradiction.
+Qed.
+
+Lemma generated_topic_nodup : forall e, NoDup (sp_topic_generated e).
+Proof.
+  intros e. unfold sp_topic_generated. constructor; [|repeat constructor; intros []].
+  intros [E|[]]. assert (L : last (to_camel (sp_camel e ++ bs "Publish") ++ bs "Topic") 0 = last (sp_camel e ++ bs "EventMessage") 0) by (now rewrite E).
+  rewrite !last_app_nonempty in L by discriminate. vm_compute in L. discriminate.
+Qed.
+
+Lemma disjoint_bytes_spec : forall a b, disjoint_bytes a b = true -> forall x, In x a -> ~ In x b.
+Proof.
+  intros a b H x Hx Hin. unfold disjoint_bytes in H. rewrite forallb_forall in H. specialize (H x Hx).
+  apply negb_true_iff in H. apply existsb_bytes_In in Hin. congruence.
+Qed.
+
+Lemma scope_of_parts : forall gen user, NoDup gen -> nodup_bytes user = true -> disjoint_bytes user gen = true ->
+  nodup_bytes (gen ++ user) = true.
+Proof.
+  intros gen user Hg Hu Hd. apply nodup_bytes_NoDup. apply NoDup_app_intro; [exact Hg|now apply nodup_bytes_NoDup|].
+  intros x Hx Hin. exact (disjoint_bytes_spec _ _ Hd x Hin Hx).
+Qed.
+
+Theorem main_scope_distinct : forall e, decl_enums_ok e = true ->
+  nodup_bytes (sp_main_user e) = true -> disjoint_bytes (sp_main_user e) (sp_main_generated e) = true ->
+  nodup_bytes (sp_main_scope e) = true.
+Proof.
+  intros e He Hu Hd.
+  replace (sp_main_scope e) with (sp_main_generated e ++ sp_main_user e)
+    by (unfold sp_main_scope, sp_main_generated, sp_main_user; rewrite <- !app_assoc; reflexivity).
+  apply scope_of_parts; [now apply generated_main_nodup|exact Hu|exact Hd].
+Qed.
+Theorem service_scope_distinct : forall e,
+  nodup_bytes (sp_service_user e) = true -> disjoint_bytes (sp_service_user e) (sp_service_generated e) = true ->
+  nodup_bytes (sp_service_scope e) = true.
+Proof. intros e Hu Hd. exact (scope_of_parts _ _ (generated_service_nodup e) Hu Hd). Qed.
+Theorem topic_scope_distinct : forall e,
+  nodup_bytes (sp_topic_user e) = true -> disjoint_bytes (sp_topic_user e) (sp_topic_generated e) = true ->
+  nodup_bytes (sp_topic_scope e) = true.
+Proof. intros e Hu Hd. exact (scope_of_parts _ _ (generated_topic_nodup e) Hu Hd). Qed.
+
 Lemma quantified_of : forall e, in_quantifier e = true -> quantified e.
 Proof.
   intros e H. unfold in_quantifier in H.
   repeat match type of H with
          | (_ && _) = true => apply andb_true_iff in H; let H' := fresh "Q" in destruct H as [H H']
          end.
+  match goal with U : user_names_ok e = true |- _ =>
+    unfold user_names_ok in U;
+    repeat match type of U with
+           | (_ && _) = true => apply andb_true_iff in U; let U' := fresh "U" in destruct U as [U U']
+           end
+  end.
   constructor; try assumption.
   - intros E. rewrite E in *. discriminate.
+  - apply main_scope_distinct; assumption.
+  - apply service_scope_distinct; assumption.
+  - apply topic_scope_distinct; assumption.
   - now apply negb_true_iff.
 Qed.
 
@@ -516,15 +667,6 @@ Lemma fields_wf_each : forall fs, fields_wf fs = true -> forallb ufield_wf fs = 
 Proof. intros fs H. unfold fields_wf in H. apply andb_true_iff in H. tauto. Qed.
 
 Definition all_nodup_l (l : list (list bytes)) : Prop := Forall (fun sc => NoDup sc) l.
-
-Lemma status_values_names_n : forall p l n0, map fst (status_values_n p l n0) = sp_enum_values_n p l n0.
-Proof.
-  intros p [|s r] n0; [reflexivity|]. cbn [status_values_n sp_enum_values_n].
-  change (sp_explicit_zero p s) with (is_explicit_zero p s).
-  destruct (is_explicit_zero p s && (n0 =? 0)); cbn [map fst]; rewrite number_from_names; reflexivity.
-Qed.
-Lemma status_values_names : forall p l, map fst (status_values p l) = sp_enum_values p l.
-Proof. intros p l. apply status_values_names_n. Qed.
 
 (* the inline types of a message of user fields: names and scopes *)
 Lemma inline_enum_values_eq : forall n os,
